@@ -28,7 +28,7 @@ ASSUMPTIONS = ['bit-equality is demanded only between executions of the same cod
                'paired-world numerics are compared by model name within 1e-9 (relative, floor 1e-9) and only for well-conditioned regressions '
                '(normal-matrix determinant > 1e-3 of the product of its diagonal); rankings may differ inside exact ties']
 PROBES = ['same_source_object_twice', 'both_users_same_source', 'bad_call_between', 'memmap_fitter', 'apdep', 'p1_filters_permuted',
-          'p2_models_permuted', 'p3_flux_scaled', 'ill_conditioned_skipped', 'earlier_results_rechecked', 'source_edited_in_place', 'refit_after_in_place_edit']
+          'p2_models_permuted', 'p3_flux_scaled', 'ill_conditioned_skipped', 'earlier_results_rechecked', 'source_edited_in_place', 'refit_after_in_place_edit', 'mixed_named_and_wavelength_filters']
 
 
 def budgets(tier):
@@ -60,7 +60,10 @@ def generate(rng, tier, idx):
             'theta_seed': rng.randrange(1 << 30), 'listing_seed': rng.randrange(1 << 30),
             'p1_seed': rng.randrange(1 << 30) if rng.random() < 0.6 else None,
             'p2_seed': rng.randrange(1 << 30) if rng.random() < 0.5 else None,
-            'p3_c': float('%.4g' % (10 ** rng.uniform(-4, 4))) if rng.random() < 0.6 else None}
+            'p3_c': float('%.4g' % (10 ** rng.uniform(-4, 4))) if rng.random() < 0.6 else None,
+            # cube packages: some entries of the filter list are monochromatic wavelengths (Quantities) instead of names
+            'mono': [rng.random() < 0.4 for _ in range(nf)] if w['format'] == 2 and rng.random() < 0.5 else None,
+            'mono_seed': rng.randrange(1 << 30), 'mono_unit': rng.choice(['micron', 'micron', 'Angstrom', 'mm'])}
 
 
 def execute(sc):
@@ -118,6 +121,13 @@ def _execute(sc, sim, out):
         out.discarded = 'setup-convolve:' + pipe.exc_name(r)
         return
     names, ap = pipe.filter_args(W, sc)
+    if sc.get('mono') and spec['format'] == 2 and any(sc['mono']):
+        from astropy import units as u
+        mr = random.Random(sc['mono_seed'])
+        picks = mr.sample(range(W.n_wav), min(W.n_wav, len(names)))
+        names = [((float(W.wav[picks[j % len(picks)]]) * u.micron).to(u.Unit(sc.get('mono_unit', 'micron'))) if m else nm)
+                 for j, (nm, m) in enumerate(zip(names, sc['mono']))]
+        out.probe('mixed_named_and_wavelength_filters')
     kw = pipe.fitter_kwargs(W, sc)
 
     def new_fitter(dd=d, nm=names, aa=ap):
@@ -341,6 +351,8 @@ def lowerings(sc, viol=None):
     for key in ('p1_seed', 'p2_seed', 'p3_c'):
         if sc[key] is not None:
             yield dict(sc, **{key: None})
+    if sc.get('mono'):
+        yield dict(sc, mono=None)
     if sc['memmap']:
         yield dict(sc, memmap=False)
     w = sc['world']
